@@ -61,7 +61,7 @@ Init ==
          /\ kinds \in [1..d -> Kinds]
          /\ \E nr \in 1..MaxRows :
               \* 2-row inputs only on the two coarsest lattices (state-space control)
-              /\ (nr = 2 => M <= 2)
+              /\ (nr = 2 => (M <= 2 /\ d <= 2))
               /\ rows \in [1..nr -> [1..d -> IF nr = 1 THEN Range(M) ELSE (-Span2 * M)..(Span2 * M)]]
     /\ out = <<>>
     /\ ok = <<>>
